@@ -6,11 +6,24 @@ the raw array (so caches cannot make the comparison circular), per-slice differe
 ``Image(arr, transformations=[a, b]) == b(a(Image))`` (members with ``active=False`` included) and
 history-freeness: a correction object that has already been applied to other data gives the same
 result as a fresh one.
+
+Gap-analysis additions: every documented *call form* (``c(x)`` - the default must behave like
+``overwrite=False`` -, ``c(x, overwrite=b)``, ``c(x, b)``); inputs whose array is Fortran-ordered or a
+strided view into a larger array (the surrounding cells must stay untouched), signed / wide integer
+dtypes for the dtype-agnostic corrections; an *independent* statement of the declared metadata
+updates (curvature crop: ``[height, width]`` / origin ``[0, height]``; generalised perspective: the
+destination coordinate system; a class that does not override ``correct_metadata`` declares
+nothing); results and inputs of *earlier* applications of a correction object stay intact when it
+is applied again; documented alternative construction forms (config dict / JSON file given as str
+or Path, baseline as array or Image, matrix file as str or Path, colour checker through the config)
+build the same correction.
 """
 import contextlib
 import copy
 import datetime as _dt
+import json
 import os
+import pathlib
 import shutil
 
 import cv2
@@ -22,27 +35,33 @@ from vf import env, gens
 from vf.runner import Outcome, Prop, Sub, Violation
 
 ALL5 = ("float64", "float32", "uint8", "uint16", "bool")
+# corrections that never hand the array to cv2 / skimage are dtype-agnostic: signed and wide integers
+# (label / segmentation images, the int16 produced by TypeCorrection(int)) are part of "random dtypes"
+INTS = ("int8", "int16", "int32", "int64", "uint32")
+ALLX = ALL5 + ALL5 + INTS
 NPT = {"bool": bool, "float": float, "float32": np.float32, "float64": np.float64, "int": int,
        "uint8": np.uint8, "uint16": np.uint16}
 
 # what every correction accepts (read off the code; see the module docstrings of the corrections)
 REQ = {
-    "type": dict(dims=(1, 2, 3), mn=1, dtypes=ALL5, payloads=("scalar", "vector"), ncomps=(3, 3, 2, 1)),
-    "rotation": dict(dims=(2, 2, 3), mn=1, dtypes=ALL5, payloads=("scalar", "vector"), ncomps=(3, 3, 2, 1)),
+    "type": dict(dims=(1, 2, 3), mn=1, dtypes=ALLX, payloads=("scalar", "vector"), ncomps=(3, 3, 2, 1)),
+    "rotation": dict(dims=(2, 2, 3), mn=1, dtypes=ALLX, payloads=("scalar", "vector"), ncomps=(3, 3, 2, 1)),
     # cv2.warpAffine: 2-D, not bool (-> rejected); a single-channel axis would be dropped by cv2
     "translation": dict(dims=(2,), mn=1, dtypes=("uint8", "uint16", "float32", "float64", "float64", "bool"),
                         payloads=("scalar", "vector"), ncomps=(3, 3, 2)),
     "translation_off": dict(dims=(2,), mn=1, dtypes=("uint8", "float64"), payloads=("scalar", "vector"),
                             ncomps=(3, 2)),
     # np.squeeze in _transform_image: keep every extent >= 3 and no 1-component vector payload
-    "curvature": dict(dims=(2,), mn=4, dtypes=ALL5, payloads=("scalar", "vector"), ncomps=(3, 3, 2)),
-    "drift_off": dict(dims=(1, 2, 2, 3), mn=1, dtypes=ALL5, payloads=("scalar", "vector"), ncomps=(3, 3, 2, 1)),
+    "curvature": dict(dims=(2,), mn=4, dtypes=ALLX, payloads=("scalar", "vector"), ncomps=(3, 3, 2)),
+    # geometry shared by the members of a constructor chain (cv2 members: no wide integers)
+    "chain": dict(dims=(2,), mn=4, dtypes=ALL5, payloads=("scalar", "vector"), ncomps=(3, 3, 2)),
+    "drift_off": dict(dims=(1, 2, 2, 3), mn=1, dtypes=ALLX, payloads=("scalar", "vector"), ncomps=(3, 3, 2, 1)),
     # ORB features: RGB input, >= 128 px
     "drift_on": dict(dims=(2,), mn=128, dtypes=("uint8", "uint8", "float32", "uint16", "bool"),
                      payloads=("vector",), ncomps=(3,)),
-    "transformation": dict(dims=(2, 2, 3), mn=1, dtypes=ALL5, payloads=("scalar", "vector"), ncomps=(3, 3, 2, 1)),
-    "affine_fit": dict(dims=(2, 2, 3), mn=3, dtypes=ALL5, payloads=("scalar", "vector"), ncomps=(3, 2, 1)),
-    "gpersp": dict(dims=(2,), mn=3, dtypes=ALL5, payloads=("scalar", "vector"), ncomps=(3, 2, 1)),
+    "transformation": dict(dims=(2, 2, 3), mn=1, dtypes=ALLX, payloads=("scalar", "vector"), ncomps=(3, 3, 2, 1)),
+    "affine_fit": dict(dims=(2, 2, 3), mn=3, dtypes=ALLX, payloads=("scalar", "vector"), ncomps=(3, 2, 1)),
+    "gpersp": dict(dims=(2,), mn=3, dtypes=ALLX, payloads=("scalar", "vector"), ncomps=(3, 2, 1)),
     "illumination": dict(dims=(2,), mn=1, dtypes=("float64", "float32", "uint8"), payloads=("vector",),
                          ncomps=(3,)),
     "color": dict(dims=(2,), mn=0, dtypes=("uint8", "float32", "float64", "uint16"), payloads=("vector",),
@@ -53,8 +72,14 @@ MAXEXT = {1: 12, 2: 8, 3: 4}
 KINDS = ["type", "type", "rotation", "rotation", "translation", "translation", "curvature", "curvature",
          "drift_off", "drift_on", "transformation", "transformation", "affine_fit", "gpersp",
          "illumination", "illumination", "color"]
+# the metadata law gets more of the corrections that declare an update (crop, destination system)
+META_KINDS = KINDS + ["curvature", "curvature", "gpersp"]
 NEUTRAL_KINDS = ["type", "rotation", "rotation", "translation", "translation_off", "curvature", "curvature",
                  "drift_off", "transformation", "affine_fit", "illumination", "color"]
+# not in the neutral law: a GeneralizedPerspectiveCorrection fitted on identical source / destination
+# points.  Its Powell fit is not robust (a trial step c = -+1 makes the perspective denominator c.x + 1
+# vanish for a point with coordinate +-1, the objective becomes nan and so do the fitted parameters:
+# 1 of ~4400 thorough cases) - an optimiser matter, not one of the copy / in-place contract.
 
 # ---------------------------------------------------------------------------------------------
 # scratch files (TranslationCorrection reads its matrix from an .npy file)
@@ -119,6 +144,9 @@ def _spec(draw, kind, mode, classes=None):
         "pseed": draw(st.integers(0, 2**16)), "name": draw(st.sampled_from([None, "img", "a b"])),
         "cls": draw(st.sampled_from(cand)),
         "cspace": draw(st.sampled_from(["RGB", "RGB", "BGR", "HSV"])),
+        # memory layout of the array handed in: C-contiguous, Fortran-ordered, or a strided view
+        # into a larger array (whose other cells must never be touched)
+        "layout": draw(st.sampled_from(["C", "C", "C", "F", "view"])),
     }
 
 
@@ -137,7 +165,8 @@ def _block(draw, a, b, neutral):
 def _corr(draw, kind, spec, neutral=False, keep_shape=False):
     dim, shape = spec["dim"], spec["shape"]
     if kind == "type":
-        to = spec["dtype"] if neutral else draw(st.sampled_from(sorted(NPT)))
+        # neutral: the target that is the input's own dtype (``int`` is skimage's int16)
+        to = {"int16": "int"}.get(spec["dtype"], spec["dtype"]) if neutral else draw(st.sampled_from(sorted(NPT)))
         return {"kind": kind, "to": to}
     if kind == "rotation":
         anchor = [draw(st.integers(-2, n + 1)) for n in shape]
@@ -155,7 +184,8 @@ def _corr(draw, kind, spec, neutral=False, keep_shape=False):
     if kind == "curvature":
         cfg = {}
         blocks = draw(st.sampled_from([["bulge"], ["stretch"], ["bulge", "stretch"], ["init", "bulge"],
-                                       ["crop"], ["crop", "bulge", "stretch"], []]))
+                                       ["crop"], ["crop", "bulge", "stretch"], ["init", "crop"],
+                                       ["crop", "stretch"], []]))
         if neutral:
             blocks = draw(st.sampled_from([[], ["bulge"], ["bulge", "stretch"], ["init"]]))
         if keep_shape:
@@ -169,6 +199,9 @@ def _corr(draw, kind, spec, neutral=False, keep_shape=False):
                 hp = draw(st.sampled_from([1.0, 0.75, 3.0]))
                 cfg["crop"] = {"pts_src": [[c0, r0], [c0, r1], [c1, r1], [c1, r0]],
                                "width": aspect * hp, "height": hp}
+                if draw(st.integers(0, 7)) == 0:
+                    # a crop without physical size declares no metadata update
+                    del cfg["crop"][draw(st.sampled_from(["width", "height"]))]
             elif b == "stretch":
                 cfg["stretch"] = draw(_block("stretch", None, neutral))
             else:
@@ -237,6 +270,15 @@ def _corr(draw, kind, spec, neutral=False, keep_shape=False):
     raise AssertionError(kind)
 
 
+@st.composite
+def _call(draw):
+    """overwrite flag + the call form: ``c(x, overwrite=b)``, ``c(x, b)`` or - the signature
+    documents ``overwrite: bool = False`` - plain ``c(x)``."""
+    overwrite = draw(st.booleans())
+    form = draw(st.sampled_from(["kw", "pos"] if overwrite else ["kw", "pos", "default", "default"]))
+    return overwrite, form
+
+
 def gen(mode, kinds=None, classes=None):
     kinds = kinds or (NEUTRAL_KINDS if mode == "neutral" else KINDS)
 
@@ -244,8 +286,12 @@ def gen(mode, kinds=None, classes=None):
     def strat(draw):
         kind = draw(st.sampled_from(kinds))
         spec = draw(_spec(kind, "any" if mode == "neutral" else mode, classes))
+        if mode == "neutral" and kind == "type" and spec["dtype"] in INTS and spec["dtype"] != "int16":
+            # TypeCorrection has no target for these: the neutral type correction does not exist
+            spec["dtype"] = draw(st.sampled_from(ALL5 + ("int16",)))
         cp = draw(_corr(kind, spec, neutral=(mode == "neutral")))
-        return {"inp": spec, "corr": cp, "overwrite": draw(st.booleans())}
+        overwrite, form = draw(_call())
+        return {"inp": spec, "corr": cp, "overwrite": overwrite, "call": form}
 
     return lambda tier: strat()
 
@@ -264,10 +310,37 @@ def gen_reuse(tier):
         cp = draw(_corr(kind, spec))
         # the input the correction object is applied to *before* the one that is compared: same
         # geometry, other data (other illumination of the colour checker, other drift)
+        w_over, w_form = draw(_call())
         warm = {"pseed": draw(st.integers(0, 2**16)),
                 "shift": [draw(st.integers(-5, 5)), draw(st.integers(-5, 5))],
-                "overwrite": draw(st.booleans())}
-        return {"inp": spec, "corr": cp, "overwrite": draw(st.booleans()), "warm": warm}
+                "overwrite": w_over, "call": w_form}
+        overwrite, form = draw(_call())
+        return {"inp": spec, "corr": cp, "overwrite": overwrite, "call": form, "warm": warm}
+
+    return strat()
+
+
+# documented alternative ways of handing a correction its configuration (canonical form: config
+# dict / file name as str / baseline as ndarray)
+FORMS = {"curvature": ["json-str", "json-path", "json-path"],  # "config (dict, str, Path)"
+         "translation": ["path"],                                # Optional[Union[str, Path]]
+         "drift_off": ["base-image"],                            # "base (array or Image): baseline."
+         "drift_on": ["base-image"]}
+FORM_KINDS = ["curvature", "curvature", "curvature", "curvature", "translation", "translation",
+              "drift_off", "drift_on"]
+
+
+def gen_forms(tier):
+    @st.composite
+    def strat(draw):
+        kind = draw(st.sampled_from(FORM_KINDS))
+        spec = draw(_spec(kind, "any"))
+        cp = draw(_corr(kind, spec))
+        if kind == "drift_off":
+            cp["with_base"] = True
+        overwrite, form = draw(_call())
+        return {"inp": spec, "corr": cp, "overwrite": overwrite, "call": form,
+                "form": draw(st.sampled_from(FORMS[kind]))}
 
     return strat()
 
@@ -289,7 +362,7 @@ def gen_chain(tier):
         # last keeps the shape, so that the second one can be built for the same geometry
         k1 = draw(st.sampled_from(CHAIN_FIRST))
         k2 = draw(st.sampled_from(CHAIN_SECOND))
-        spec = draw(_spec("curvature", "image"))
+        spec = draw(_spec("chain", "image"))
         if "illumination" in (k1, k2) or "color_off" in (k1, k2):
             spec["payload"], spec["ncomp"] = "vector", 3
             ok = [d for d in _COLOR_DTYPES if "color_off" in (k1, k2)] or list(REQ["illumination"]["dtypes"])
@@ -410,6 +483,11 @@ def _payload(spec, cp):
     dt = spec["dtype"]
     if dt in ("float64", "float32") and kind in ("type", "illumination", "chain"):
         return (rng.integers(0, 9, size=shape) / 8.0).astype(dt)  # [0, 1]: valid skimage floats
+    if dt in INTS:
+        # the whole range of the narrow types; +-2**40 (exact in float64) for the 64-bit one
+        info = np.iinfo(dt)
+        return rng.integers(max(info.min, -2**40), min(info.max, 2**40), size=shape,
+                            endpoint=True).astype(dt)
     return gens.payload_array(shape, dt, spec["pseed"], dyadic=True)
 
 
@@ -420,13 +498,46 @@ def _image_kwargs(spec):
     return kw
 
 
-def _mk_input(spec, arr):
-    """Fresh input object around a *copy* of arr."""
-    a = arr.copy()
+_GUARD = {"b": True, "u": 7, "i": 7, "f": 0.625}
+
+
+def _laid_out(spec, arr):
+    """-> (a, base): a fresh array equal to arr in the memory layout of the spec; ``base`` is
+    the larger array a strided view lives in (None otherwise), its other cells hold a guard value."""
+    lay = spec.get("layout", "C")
+    if lay == "F":
+        return np.asfortranarray(arr.copy()), None
+    if lay == "view" and arr.ndim >= 1:
+        nax = min(2, arr.ndim)
+        big = np.full(tuple(2 * n + 1 for n in arr.shape[:nax]) + arr.shape[nax:],
+                      _GUARD[arr.dtype.kind], dtype=arr.dtype)
+        sl = tuple(slice(1, 2 * n, 2) for n in arr.shape[:nax])
+        big[sl] = arr
+        return big[sl], big
+    return arr.copy(), None
+
+
+def _mk_input2(spec, arr):
+    """Fresh input object around a *copy* of arr (+ the base array of a strided view)."""
+    a, base = _laid_out(spec, arr)
     if spec["cls"] == "array":
-        return a
+        return a, base
     cls = getattr(darsia, spec["cls"])
-    return cls(a, **_image_kwargs(spec))
+    return cls(a, **_image_kwargs(spec)), base
+
+
+def _mk_input(spec, arr):
+    return _mk_input2(spec, arr)[0]
+
+
+def _guard_cells_intact(spec, base):
+    """The cells of the base array that do not belong to the view still hold the guard value."""
+    if base is None:
+        return True
+    nax = min(2, base.ndim)
+    mask = np.ones(base.shape, bool)
+    mask[tuple(slice(1, n - 1, 2) for n in base.shape[:nax])] = False
+    return bool(np.all(base[mask] == np.asarray(_GUARD[base.dtype.kind], dtype=base.dtype)))
 
 
 def _geom_image(dim, shape, dimensions, origin=None):
@@ -446,8 +557,9 @@ def _typed(typ, pts, cs):
 _COUNTER = [0]
 
 
-def build_corr(cp, spec):
-    """A fresh correction object from the JSON description (called twice per case)."""
+def build_corr(cp, spec, form=None):
+    """A fresh correction object from the JSON description (called twice per case).  ``form``
+    selects a documented alternative way of passing the same configuration (see FORMS)."""
     kind = cp["kind"]
     dim, shape = spec["dim"], spec["shape"]
     if kind == "type":
@@ -459,14 +571,22 @@ def build_corr(cp, spec):
         _COUNTER[0] += 1
         path = os.path.join(_scratch(), f"t{_COUNTER[0]}.npy")
         np.save(path, np.array([[1.0, 0.0, cp["t"][0]], [0.0, 1.0, cp["t"][1]]]))
-        return darsia.TranslationCorrection(path)
+        return darsia.TranslationCorrection(pathlib.Path(path) if form == "path" else path)
     if kind == "translation_off":
         return darsia.TranslationCorrection()
     if kind == "curvature":
-        return darsia.CurvatureCorrection(config=copy.deepcopy(cp["config"]),
-                                          interpolation_order=cp.get("order", 1))
+        config = copy.deepcopy(cp["config"])
+        if form in ("json-str", "json-path"):
+            _COUNTER[0] += 1
+            path = os.path.join(_scratch(), f"curvature{_COUNTER[0]}.json")
+            with open(path, "w") as f:
+                json.dump(config, f)
+            config = path if form == "json-str" else pathlib.Path(path)
+        return darsia.CurvatureCorrection(config=config, interpolation_order=cp.get("order", 1))
     if kind == "drift_off":
         base = np.zeros((4, 4, 3), np.uint8) if cp.get("with_base") else None
+        if form == "base-image":
+            base = darsia.Image(base, dimensions=[1.0, 1.0])
         return darsia.DriftCorrection(base, {"active": False})
     if kind == "drift_on":
         h, w = shape
@@ -477,6 +597,8 @@ def build_corr(cp, spec):
         elif cp["roi"] == "points":
             cfg["roi"] = [[cp["r"][0], cp["c"][0]], [cp["r"][1], cp["c"][1]]]
             cfg["padding"] = cp["padding"]
+        if form == "base-image":
+            base = darsia.Image(base, dimensions=[float(d) for d in spec["dimensions"]])
         return darsia.DriftCorrection(base, cfg)
     if kind in ("transformation", "affine_fit", "gpersp"):
         src = _geom_image(dim, shape, spec["dimensions"], spec["origin"])
@@ -586,9 +708,21 @@ def _seed_cv2():
     cv2.setRNGSeed(0)
 
 
-def _apply(corr, x, overwrite):
+def _apply(corr, x, overwrite, form="kw"):
     _seed_cv2()
+    if form == "default" and not overwrite:
+        return corr(x)
+    if form == "pos":
+        return corr(x, overwrite)
     return corr(x, overwrite=overwrite)
+
+
+def _form(case, overwrite=None):
+    """Call form of the case, as far as it is compatible with the overwrite flag used."""
+    f = case.get("call", "kw")
+    if f == "default" and (case["overwrite"] if overwrite is None else overwrite):
+        return "kw"
+    return f
 
 
 def _apply_array(corr, a):
@@ -665,10 +799,15 @@ def _tags(case):
 def _labels(case):
     spec = case["inp"]
     t = _tags(case)
-    return (f"corr-{t['corr']}", f"cls-{spec['cls']}",
-            "series" if spec["series"] else "single",
-            f"payload-{spec['payload']}",
-            "overwrite" if case.get("overwrite") else "copy")
+    lab = (f"corr-{t['corr']}", f"cls-{spec['cls']}",
+           "series" if spec["series"] else "single",
+           f"payload-{spec['payload']}",
+           "overwrite" if case.get("overwrite") else "copy",
+           f"layout-{spec.get('layout', 'C')}",
+           "dtype-int" if spec["dtype"] in INTS else f"dtype-{spec['dtype']}")
+    if "call" in case:
+        lab += (f"call-{case['call']}",)
+    return lab
 
 
 def _is_neutral(cp):
@@ -739,10 +878,14 @@ def _setup(case):
 def check_no_overwrite(case):
     spec, cp, arr = _setup(case)
     t = _tags(case)
-    x = _mk_input(spec, arr)
+    x, base = _mk_input2(spec, arr)
     is_arr = isinstance(x, np.ndarray)
     before = x.copy() if is_arr else gens.snapshot(x)
-    r = _apply(build_corr(cp, spec), x, False)
+    # whatever the case says about overwrite: this law is about the non-overwriting call forms
+    r = _apply(build_corr(cp, spec), x, False, _form(case, False))
+    if not _guard_cells_intact(spec, base):
+        raise Violation(f"input-modified:{cp['kind']}", "overwrite=False wrote into the array the input "
+                        "is a strided view of (cells outside the view changed)", t)
     if is_arr:
         d = _same_array(x, before)
     else:
@@ -755,6 +898,9 @@ def check_no_overwrite(case):
         raise Violation(f"result-is-input:{cp['kind']}", "overwrite=False returned the input object", t)
     if np.shares_memory(_arr(r), _arr(x)):
         raise Violation(f"shares-memory:{cp['kind']}", "result array shares memory with the input", t)
+    if base is not None and np.shares_memory(_arr(r), base):
+        raise Violation(f"shares-memory:{cp['kind']}", "result array shares memory with the array the "
+                        "input is a view of", t)
     return _outcome(case)
 
 
@@ -766,7 +912,7 @@ def check_no_overwrite(case):
 def check_same_kind(case):
     spec, cp, arr = _setup(case)
     x = _mk_input(spec, arr)
-    r = _apply(build_corr(cp, spec), x, case["overwrite"])
+    r = _apply(build_corr(cp, spec), x, case["overwrite"], _form(case))
     if type(r) is not type(x):
         raise Violation(f"kind-changed:{cp['kind']}", f"{type(x).__name__} in, {type(r).__name__} out",
                         _tags(case))
@@ -789,7 +935,7 @@ def check_data(case):
     spec, cp, arr = _setup(case)
     x = _mk_input(spec, arr)
     want = _apply_array(build_corr(cp, spec), arr.copy())
-    r = _apply(build_corr(cp, spec), x, case["overwrite"])
+    r = _apply(build_corr(cp, spec), x, case["overwrite"], _form(case))
     d = _same_array(_arr(r), want)
     if d:
         raise Violation(f"data-mismatch:{cp['kind']}", f"result vs correct_array(raw): {d}", _tags(case))
@@ -801,6 +947,30 @@ def check_data(case):
 # ---------------------------------------------------------------------------------------------
 
 
+def _declared(cp, spec, corr):
+    """The metadata update a correction declares, stated independently of ``correct_metadata``:
+    * CurvatureCorrection with a crop stage that carries the physical size: "Dimensions of Image
+      uses matrix convention, i.e. (rows, cols)" -> [height, width], origin [0, height];
+    * GeneralizedPerspectiveCorrection ("Cache reference metadata"): dimensions and origin of the
+      destination coordinate system;
+    * a class that does not override BaseCorrection.correct_metadata declares nothing.
+    None = no independent statement available for this class."""
+    if type(corr).correct_metadata is darsia.BaseCorrection.correct_metadata:
+        return {}
+    if cp["kind"] == "curvature":
+        crop = cp["config"].get("crop")
+        if crop is None or "width" not in crop or "height" not in crop:
+            return {}
+        return {"dimensions": [crop["height"], crop["width"]], "origin": [0, crop["height"]]}
+    if cp["kind"] == "gpersp":
+        if cp["dst"] is None:
+            dst = _geom_image(spec["dim"], spec["shape"], spec["dimensions"], spec["origin"])
+        else:
+            dst = _geom_image(spec["dim"], cp["dst"]["shape"], cp["dst"]["dimensions"])
+        return {"dimensions": list(dst.dimensions), "origin": np.asarray(dst.origin).tolist()}
+    return None
+
+
 def check_metadata(case):
     spec, cp, arr = _setup(case)
     x = _mk_input(spec, arr)
@@ -809,11 +979,21 @@ def check_metadata(case):
     upd = build_corr(cp, spec).correct_metadata(ref.metadata())
     want = dict(base)
     want.update(upd)
-    r = _apply(build_corr(cp, spec), x, case["overwrite"])
+    corr = build_corr(cp, spec)
+    r = _apply(corr, x, case["overwrite"], _form(case))
     d = _meta_diff(_norm_meta(r.metadata()), _norm_meta(want))
     if d:
         raise Violation(f"metadata-mismatch:{cp['kind']}",
                         f"overwrite={case['overwrite']}: result metadata vs input+update {d}", _tags(case))
+    # ... and against the declaration stated independently of correct_metadata
+    decl = _declared(cp, spec, corr)
+    if decl is not None:
+        want2 = dict(_mk_input(spec, arr).metadata())
+        want2.update(decl)
+        d = _meta_diff(_norm_meta(r.metadata()), _norm_meta(want2))
+        if d:
+            raise Violation(f"metadata-declared:{cp['kind']}", f"overwrite={case['overwrite']}: result "
+                            f"metadata vs input + documented update {sorted(decl)}: {d}", _tags(case))
     # ... and the constructor keywords the input was built with survive (independent of metadata())
     kw = _image_kwargs(spec)
     for key in ("name", "color_space", "series", "scalar", "space_dim"):
@@ -827,7 +1007,10 @@ def check_metadata(case):
         raise Violation(f"metadata-shape:{cp['kind']}",
                         f"array of shape {r.img.shape} but space_dim={sd}, series={r.series}, "
                         f"scalar={r.scalar}", _tags(case))
-    return _outcome(case)
+    out = _outcome(case)
+    out.labels = tuple(out.labels) + (("meta-update" if upd else "meta-unchanged"),) + (
+        ("shape-changed",) if tuple(r.img.shape) != tuple(arr.shape) else ())
+    return out
 
 
 # ---------------------------------------------------------------------------------------------
@@ -840,8 +1023,9 @@ def check_overwrite(case):
     t = _tags(case)
     x = _mk_input(spec, arr)
     y = _mk_input(spec, arr)
-    want = _apply(build_corr(cp, spec), y, False)
-    r = _apply(build_corr(cp, spec), x, True)
+    f = case.get("call", "kw")
+    want = _apply(build_corr(cp, spec), y, False, f)
+    r = _apply(build_corr(cp, spec), x, True, "kw" if f == "default" else f)
     if not isinstance(x, np.ndarray):
         if r is not x:
             raise Violation(f"overwrite-new-object:{cp['kind']}", "overwrite=True did not return the input object", t)
@@ -866,7 +1050,7 @@ def check_series(case):
     spec, cp, arr = _setup(case)
     t = _tags(case)
     x = _mk_input(spec, arr)
-    r = _apply(build_corr(cp, spec), x, case["overwrite"])
+    r = _apply(build_corr(cp, spec), x, case["overwrite"], _form(case))
     if not r.series or r.time_num != spec["nt"]:
         raise Violation(f"series-lost:{cp['kind']}", f"series={r.series} time_num={r.time_num}", t)
     if r.img.shape[r.space_dim] != spec["nt"]:
@@ -900,7 +1084,7 @@ def check_neutral(case):
     spec, cp, arr = _setup(case)
     t = _tags(case)
     x = _mk_input(spec, arr)
-    r = _apply(build_corr(cp, spec), x, case["overwrite"])
+    r = _apply(build_corr(cp, spec), x, case["overwrite"], _form(case))
     got = _arr(r)
     if cp["kind"] == "color":
         # inactive colour correction documents a conversion to float32 in [0, 1]
@@ -952,7 +1136,7 @@ def check_chain(case):
     chain = [a, None, b] if case["with_none"] else [a, b]
     cls = getattr(darsia, spec["cls"])
     _seed_cv2()
-    got = cls(arr.copy(), transformations=chain, **_image_kwargs(spec))
+    got = cls(_laid_out(spec, arr)[0], transformations=chain, **_image_kwargs(spec))
     if type(got) is not type(want):
         raise Violation("chain-kind", f"{type(got).__name__} vs {type(want).__name__}", t)
     d = _same_array(got.img, want.img)
@@ -984,10 +1168,32 @@ def check_reuse(case):
     cp0 = dict(cp, shift=list(w["shift"])) if cp["kind"] == "drift_on" else cp
     arr0 = _payload(spec0, cp0)
     differs = arr0.shape == arr.shape and not np.array_equal(arr0, arr)
-    want = _apply(build_corr(cp, spec), _mk_input(spec, arr), case["overwrite"])
+    want = _apply(build_corr(cp, spec), _mk_input(spec, arr), case["overwrite"], _form(case))
     c = build_corr(cp, spec)
-    _apply(c, _mk_input(spec0, arr0), w["overwrite"])
-    r = _apply(c, _mk_input(spec, arr), case["overwrite"])
+    x0 = _mk_input(spec0, arr0)
+    r0 = _apply(c, x0, w["overwrite"], _form(w))
+    # what the first application handed out / left behind ...
+    r0_data, x0_data = _arr(r0).copy(), _arr(x0).copy()
+    r0_meta = None if isinstance(r0, np.ndarray) else _norm_meta(gens.snapshot(r0)["meta"])
+    x = _mk_input(spec, arr)
+    r = _apply(c, x, case["overwrite"], _form(case))
+    # ... is not touched by the second one: every application returns its own result
+    d = _same_array(_arr(r0), r0_data)
+    if d:
+        raise Violation(f"reuse-earlier-result-changed:{cp['kind']}", "the result of the first application "
+                        f"changed when the correction object was applied to another input: {d}", t)
+    if r0_meta is not None:
+        d = _meta_diff(_norm_meta(gens.snapshot(r0)["meta"]), r0_meta)
+        if d:
+            raise Violation(f"reuse-earlier-result-changed:{cp['kind']}", "metadata of the first result "
+                            f"changed with the second application: {d}", t)
+    d = _same_array(_arr(x0), x0_data)
+    if d:
+        raise Violation(f"reuse-earlier-input-changed:{cp['kind']}", "the input of the first application "
+                        f"changed when the correction object was applied to another input: {d}", t)
+    if np.shares_memory(_arr(r), _arr(r0)):
+        raise Violation(f"reuse-results-share-memory:{cp['kind']}", "results of two applications of one "
+                        "correction object to two separate inputs share memory", t)
     d = _same_array(_arr(r), _arr(want))
     if d:
         raise Violation(f"reuse-data:{cp['kind']}", "second application of a correction object vs a fresh, "
@@ -1002,6 +1208,44 @@ def check_reuse(case):
     return out
 
 
+# ---------------------------------------------------------------------------------------------
+# 10. documented alternative construction forms build the same correction
+# ---------------------------------------------------------------------------------------------
+
+
+def check_forms(case):
+    """A correction that is handed its configuration in another documented form (JSON file instead
+    of the dict - as str or Path -, Path instead of str, Image instead of ndarray as baseline)
+    obeys the same contract: same pixel data, same metadata as the canonically built one."""
+    spec, cp, arr = _setup(case)
+    t = dict(_tags(case), form=case["form"])
+    want = _apply(build_corr(cp, spec), _mk_input(spec, arr), case["overwrite"], _form(case))
+    x = _mk_input(spec, arr)
+    try:
+        with _guard([cp["kind"]], spec["dtype"] == "bool"):
+            r = _apply(build_corr(cp, spec, form=case["form"]), x, case["overwrite"], _form(case))
+    except _Rejected:
+        raise Violation(f"form-rejected:{cp['kind']}:{case['form']}", "the canonically built correction "
+                        "accepts the input, the one built from the alternative form rejects it", t) from None
+    if type(r) is not type(want):
+        raise Violation(f"form-kind:{cp['kind']}:{case['form']}", f"{type(r).__name__} vs "
+                        f"{type(want).__name__}", t)
+    d = _same_array(_arr(r), _arr(want))
+    if d:
+        raise Violation(f"form-data:{cp['kind']}:{case['form']}", "correction built from the alternative "
+                        f"form vs the canonically built one: {d}", t)
+    if not isinstance(r, np.ndarray):
+        d = _meta_diff(_norm_meta(r.metadata()), _norm_meta(want.metadata()))
+        if d:
+            raise Violation(f"form-metadata:{cp['kind']}:{case['form']}", d, t)
+        if case["overwrite"] and r is not x:
+            raise Violation(f"overwrite-new-object:{cp['kind']}", "overwrite=True did not return the input "
+                            "object", t)
+    out = _outcome(case)
+    out.labels = tuple(out.labels) + (f"form-{case['form']}",)
+    return out
+
+
 _RULE = ("Hypothesis draws a correction (type, rotation 2-D/3-D, translation, curvature with "
          "init/crop/bulge/stretch blocks, drift active/inactive, TransformationCorrection with an exact "
          "affine map, fitted AffineCorrection / GeneralizedPerspectiveCorrection, IlluminationCorrection, "
@@ -1012,6 +1256,13 @@ _RULE = ("Hypothesis draws a correction (type, rotation 2-D/3-D, translation, cu
          "has first been applied to other data of the same geometry); constructor chains also contain "
          "members whose ``active`` flag is off (inactive ColorCorrection / Drift / Translation); the "
          "per-slice reference of a series comes from a fresh correction object per slice; "
+         "every case also draws the call form (c(x) / c(x, overwrite=b) / c(x, b)), the memory layout "
+         "of the array handed in (C, Fortran, strided view into a guarded larger array) and, for the "
+         "corrections that do not go through cv2 / skimage, signed and 32/64-bit integer dtypes; the "
+         "metadata law states the declared updates independently of correct_metadata; the re-use law "
+         "also keeps the first result and the first input and demands that the second application "
+         "leaves them alone; construction_forms_agree builds the same correction from a JSON file "
+         "(str / Path), a Path to the matrix file, an Image as drift baseline; "
          "distinct = the whole case")
 
 _SH = {"quick": 4, "thorough": 16}
@@ -1033,6 +1284,10 @@ PROP = Prop(
         "array inputs with overwrite=True: only the returned values are compared (identity is not "
         "demanded, a dtype/shape changing correction cannot work in place)",
         "expected data always come from a second, identically constructed correction object",
+        "a class that does not override BaseCorrection.correct_metadata declares no metadata update; "
+        "CurvatureCorrection declares [height, width] / origin [0, height] of its crop stage (only if both "
+        "are configured), GeneralizedPerspectiveCorrection the dimensions and origin of its destination "
+        "coordinate system",
         "cv2.setRNGSeed(0) before every application; the colour correction's instance is wrapped so "
         "that this also happens before each slice of a series (k-means draws from cv2's global RNG)",
     ],
@@ -1040,11 +1295,12 @@ PROP = Prop(
         Sub("no_overwrite_leaves_input", _wrap(check_no_overwrite), gen=gen("any"), n=_n(2400, 60000), shards=_SH),
         Sub("same_kind", _wrap(check_same_kind), gen=gen("any"), n=_n(2400, 60000), shards=_SH),
         Sub("data_equals_correct_array", _wrap(check_data), gen=gen("single"), n=_n(2400, 60000), shards=_SH),
-        Sub("metadata_is_input_plus_update", _wrap(check_metadata), gen=gen("image"), n=_n(2400, 60000), shards=_SH),
+        Sub("metadata_is_input_plus_update", _wrap(check_metadata), gen=gen("image", kinds=META_KINDS), n=_n(2400, 60000), shards=_SH),
         Sub("overwrite_same_object", _wrap(check_overwrite), gen=gen("any"), n=_n(2400, 60000), shards=_SH),
         Sub("series_equals_per_slice", _wrap(check_series), gen=gen("series"), n=_n(1800, 45000), shards=_SH),
         Sub("neutral_is_identity", _wrap(check_neutral), gen=gen("neutral"), n=_n(2400, 60000), shards=_SH),
         Sub("constructor_chain", _wrap(check_chain), gen=gen_chain, n=_n(1800, 45000), shards=_SH),
         Sub("reuse_is_history_free", _wrap(check_reuse), gen=gen_reuse, n=_n(400, 12000), shards=_SH),
+        Sub("construction_forms_agree", _wrap(check_forms), gen=gen_forms, n=_n(320, 8000), shards=_SH),
     ],
 )
